@@ -127,6 +127,16 @@ CLAIMED.update({
   "ref": "§6 C20, §4.5", "engines": ["TLC", "kv-http"]},
 })
 
+for _pid in ("C02", "C04"):
+    CLAIMED[_pid]["technique"] += (
+        "; convergence / completion stated as temporal properties and "
+        "checked by TLC under weak fairness of the background tasks "
+        "(spec/MC_Krill_live.tla, no state constraint)")
+CLAIMED["C15"]["technique"] += (
+    "; the proxy's per-key request / response slots bound through the "
+    "request-processing entry (cfg-gated hook) for a child whose requests "
+    "arrive one at a time")
+
 NOT_YET = ("not claimed yet: the specification and conformance check for this "
            "property are still under construction (DESIGN.md §12 build-out order)")
 NOT_APPLICABLE = {}
